@@ -6,7 +6,7 @@ use crate::props::c14::{knot_spec, resolve_x, x_spec, KnotSpec, XSpec};
 use crate::util::*;
 use proptest::prelude::*;
 use rateslib::dual::{Dual, Dual2, Gradient1, Gradient2, Number, NumberMapping};
-use rateslib::splines::PPSpline;
+use rateslib::splines::{bspldnev_single_dual, bspldnev_single_dual2, bsplev_single_dual, bsplev_single_dual2, PPSpline};
 use serde::{Deserialize, Serialize};
 
 #[derive(Clone, Debug, Serialize, Deserialize)]
@@ -386,6 +386,39 @@ impl Property for C15 {
                         // d2/dvdw s(x(v,w)) = s'' x_v x_w + s' x_vw, with x_vw = 2 x storage
                         let eh = d[2].0 * c1[i] * c1[j] + d[1].0 * 2.0 * st[i * na + j];
                         ok &= (h2[[i, j]] - eh).abs() <= 1e-10 * (d[2].1 + d[1].1 + cscale) * cmax * cmax;
+                    }
+                }
+                // the same law one level down: each basis function evaluated at the dual abscissa
+                // through the four public entry points
+                for i in 0..n {
+                    let b = [reference[i].eval(t, *x, m), reference[i].eval(t, *x, m + 1), reference[i].eval(t, *x, m + 2)];
+                    let bs = b[0].1 + b[1].1 + b[2].1 + 1.0;
+                    let (e1, e2) = match catch(|| {
+                        let e1 = if m == 0 { bsplev_single_dual(&xd, i, &k, t, None) } else { bspldnev_single_dual(&xd, i, &k, t, m, None) };
+                        let e2 = if m == 0 { bsplev_single_dual2(&xd2, i, &k, t, None) } else { bspldnev_single_dual2(&xd2, i, &k, t, m, None) };
+                        (e1, e2)
+                    }) {
+                        Ok(e) => e,
+                        Err(p) => {
+                            v.fail(format!("basis function at a dual abscissa | panic | {}", p.site()), p.message);
+                            return v;
+                        }
+                    };
+                    let (bg1, bg2, bh2) = (e1.gradient1(an.clone()), e2.gradient1(an.clone()), e2.gradient2(an.clone()));
+                    let mut bok = (e1.real() - b[0].0).abs() <= 1e-10 * bs && (e2.real() - b[0].0).abs() <= 1e-10 * bs;
+                    for p in 0..na {
+                        bok &= (bg1[p] - b[1].0 * c1[p]).abs() <= 1e-10 * bs * cmax && (bg2[p] - b[1].0 * c1[p]).abs() <= 1e-10 * bs * cmax;
+                        for q in 0..na {
+                            let eh = b[2].0 * c1[p] * c1[q] + b[1].0 * 2.0 * st[p * na + q];
+                            bok &= (bh2[[p, q]] - eh).abs() <= 1e-10 * bs * cmax * cmax;
+                        }
+                    }
+                    if !bok {
+                        v.fail(
+                            "basis function at a dual abscissa does not carry its own derivatives as sensitivities",
+                            format!("k={} t={:?} i={} m={} x={:?} abscissa content {:?}/{:?}: Dual ({:e}, {:?}), Dual2 ({:e}, {:?}, {:?}); B^(m)={:e} B^(m+1)={:e} B^(m+2)={:e}", k, t, i, m, x, c1, st, e1.real(), bg1.to_vec(), e2.real(), bg2.to_vec(), bh2.iter().collect::<Vec<_>>(), b[0].0, b[1].0, b[2].0),
+                        );
+                        return v;
                     }
                 }
                 if !ok {
